@@ -51,6 +51,15 @@ def load_known():
     return json.load(open(p)).get('findings', [])
 
 
+def _signature(env, c):
+    """parameter names of the real function (from its AST): decorated functions hide them from inspect.signature"""
+    try:
+        a = env.repo.find(c.target).node.args
+        return [x.arg for x in a.posonlyargs + a.args + a.kwonlyargs]
+    except Exception:
+        return None
+
+
 def _worker(job):
     """job: (contract id, variant, extra_requires, thorough)"""
     cid, variant, extra, thorough = job
@@ -74,7 +83,8 @@ def _worker(job):
                     unsupported=r.unsupported[:20], crash=r.crash, sha=r.func_sha, target=c.target,
                     abstracted=r.abstracted, notes=r.notes, bounded=r.bounded, obligations=obs,
                     seconds=round(time.time() - t0, 2), props=c.props, note=c.note, is_bounded=c.bounded,
-                    requires=c.requires, modular=c.modular)
+                    requires=c.requires, modular=c.modular, signature=_signature(env, c),
+                    env_opaque=any(v != 'none' for v in (c.regex_env or {}).values()))
     except Exception:
         return dict(cid=cid, variant=variant, status='crash', crash=traceback.format_exc(), obligations=[],
                     paths=0, unsupported=[], seconds=round(time.time() - t0, 2), target='?', sha=None,
@@ -89,10 +99,113 @@ def write_replay(pid, rec, ob, contract_meta):
                 clause=ob['note'], line=ob['line'], function=ob['func'], witness=ob.get('witness'),
                 witness_error=ob.get('witness_error'), solver_model=ob.get('model'),
                 solver_output=f'{ob["verdict"]} by {ob["backends"]}; {ob.get("reason", "")}',
-                sample_vc=ob.get('sample'), requires=rec.get('requires'))
+                sample_vc=ob.get('sample'), requires=rec.get('requires'), signature=rec.get('signature'))
     with open(path, 'w') as f:
         json.dump(data, f, indent=1, default=str)
     return path
+
+
+ADVERSARIAL_STRINGS = ['\u0130 3 x', '\u00df 12 kg', '\ufb01le 25 usd', 'e\u0301 7 pm', '\u00bd 3', '\u2026 42', '\uff11\uff12 \uff0c 5',
+                       '\u4e2d 5', '\U0001F44D yes', 'A\u030a 9', '\u1e9e 4 $', 'x\u00a05']
+
+
+def adversarial_replay(path):
+    """The solver refuted an obligation but its own input does not fail natively (under-constrained library model or
+    engine havoc).  Before giving up, the top-level string parameters of the witness are replaced by strings from a
+    fixed adversarial pool (case-expanding, compatibility, combining, full-width, CJK, emoji code points) and the real
+    function is run again; only a natively failing input turns the refutation into a violation."""
+    with open(path) as f:
+        d = json.load(f)
+    w = d.get('witness') or {}
+    names = [k for k, v in w.items() if isinstance(v, str)]
+    for name in names:
+        for s in ADVERSARIAL_STRINGS:
+            d2 = dict(d)
+            d2['witness'] = dict(w)
+            d2['witness'][name] = s
+            p2 = path[:-5] + '.adversarial.json'
+            with open(p2, 'w') as f:
+                json.dump(d2, f, indent=1, default=str)
+            status, text = run_replay(p2, 30)
+            if status == 'confirmed':
+                d2['replay_status'] = 'confirmed'
+                d2['replay_output'] = text[-3000:]
+                d2['note'] = f'failing input found by the adversarial-string search (parameter {name})'
+                with open(p2, 'w') as f:
+                    json.dump(d2, f, indent=1, default=str)
+                return p2
+            os.remove(p2)
+    return None
+
+
+def native_probe(pid, cid, seed):
+    """A proof-level obligation (loop invariant, termination measure, call-site precondition) no longer goes through.
+    That alone says the PROOF needs maintenance, not that the property is violated (a harmless refactoring of a loop
+    does this).  The contract's postconditions are therefore tried natively on the real function: inputs sampled from
+    solver models of the precondition, each also with the adversarial strings substituted.  Returns the replay file of
+    a natively failing input, or None."""
+    from pyvc.contract import VerifEnv
+    from pyvc.sampling import sample
+    from pyvc import sorts as _sorts
+    cs = all_contracts()
+    c = next((x for x in cs if x.id == cid), None)
+    if c is None:
+        return None, 0
+    ghosts = {g for spec in c.loops.values() for g in getattr(spec, 'ghost', {})}
+    import re as _re
+    clauses = [src for _, src in c.ensures if not any(_re.search(r'\b%s\b' % _re.escape(g), src) for g in ghosts)] + list(c.native_ensures)
+    if not clauses:
+        return None, 0
+    env = VerifEnv(cs)
+    try:
+        ws, _why = sample(env, c, 40, seed)
+    except Exception:
+        ws = []
+    cands = list(ws)
+    for w in ws[:2]:
+        for name, v in w.items():
+            if isinstance(v, str):
+                for s_ in ADVERSARIAL_STRINGS:
+                    w2 = dict(w)
+                    w2[name] = s_
+                    cands.append(w2)
+    os.makedirs(REPLAY_DIR, exist_ok=True)
+    from concurrent.futures import ThreadPoolExecutor
+    seen = set()
+    uniq = []
+    for w in cands:
+        key = json.dumps(w, sort_keys=True, default=str)
+        if key not in seen:
+            seen.add(key)
+            uniq.append(w)
+    final = os.path.join(REPLAY_DIR, f'{pid}_{cid}_native_probe.json')
+
+    def one(job):
+        k, w = job
+        path = final[:-5] + f'.{k}.json'
+        with open(path, 'w') as f:
+            json.dump(dict(property=pid, contract=cid, target=c.target, obligation='native-probe/post', kind='post',
+                           clause=' and '.join(f'({x})' for x in clauses), witness=w,
+                           allow_raise=list(c.raises) + list(c.allow_raise), signature=_signature(env, c),
+                           param_exprs={n: srt.src for n, srt in c.params.items() if isinstance(srt, _sorts.Expr)}),
+                      f, indent=1, default=str)
+        status, text = run_replay(path, 30)
+        return path, status, text
+    hit = None
+    runs = 0
+    with ThreadPoolExecutor(max_workers=8) as ex:
+        for path, status, text in ex.map(one, list(enumerate(uniq[:96]))):
+            runs += 1
+            if status == 'confirmed' and hit is None:
+                with open(path) as f:
+                    d = json.load(f)
+                d['replay_status'] = 'confirmed'
+                d['replay_output'] = text[-3000:]
+                with open(final, 'w') as f:
+                    json.dump(d, f, indent=1, default=str)
+                hit = final
+            os.remove(path)
+    return hit, runs
 
 
 def run_replay(path, timeout=60):
@@ -183,6 +296,8 @@ def run_property(pid, tier='quick', seed=0, only=None):
                 ok = all(ob['verdict'] == 'unsat' for ob in rec['obligations']) and not rec['unsupported']
                 bounded.append(f'{rec["cid"]}: BOUNDED stand-in ({rec["is_bounded"]}); {len(rec["obligations"])} checks, '
                                f'{"all passed" if ok else "NOT all passed"}; not counted in obligations/discharged')
+            proof_level_failures = []
+            n_viol_before = len(violations)
             for ob in rec['obligations']:
                 if not rec.get('is_bounded'):
                     n_ob += 1
@@ -195,9 +310,16 @@ def run_property(pid, tier='quick', seed=0, only=None):
                     if len(samples) < 6 and ob.get('sample'):
                         samples.append(dict(obligation=f'{pid}/{rec["cid"]}/{ob["name"]}', clause=ob['note'],
                                             vc=ob['sample'][:400], instances=ob['instances']))
+                elif ob['verdict'] == 'sat' and ob['kind'] not in ('post', 'raises'):
+                    proof_level_failures.append(ob)
                 elif ob['verdict'] == 'sat':
                     path = write_replay(pid, rec, ob, None)
-                    status, text = run_replay(path)
+                    if rec.get('env_opaque'):
+                        # regex matches are environment values of this contract: natively the pattern names would be run as
+                        # real regexes, which is a different environment, so a native run proves nothing either way
+                        status, text = 'not-constructed', 'not replayable: the contract has a regex environment (matches are environment values)'
+                    else:
+                        status, text = run_replay(path)
                     with open(path) as f:
                         d = json.load(f)
                     d['replay_status'] = status
@@ -206,13 +328,36 @@ def run_property(pid, tier='quick', seed=0, only=None):
                         json.dump(d, f, indent=1, default=str)
                     if status == 'confirmed':
                         violations.append((f'{rec["cid"]}/{ob["name"]}', path, ''))
+                    elif status == 'not-reproduced' and ob['kind'] == 'post' and adversarial_replay(path):
+                        violations.append((f'{rec["cid"]}/{ob["name"]}', path[:-5] + '.adversarial.json', ''))
                     elif status == 'not-reproduced':
                         undecided.append(f'{rec["cid"]}/{ob["name"]}: refuted by the solver but the counterexample does not '
                                          f'reproduce on the real code (engine imprecision?) see {path}')
                     else:
                         violations.append((f'{rec["cid"]}/{ob["name"]}', path, ' no-failing-input-found'))
                 else:
-                    undecided.append(f'{rec["cid"]}/{ob["name"]}: {ob["verdict"]} {ob.get("reason", "")}')
+                    adv = None
+                    if ob.get('tainted') and ob.get('witness') and ob['kind'] == 'post':
+                        path = write_replay(pid, rec, ob, None)
+                        adv = adversarial_replay(path)
+                        if adv is None:
+                            os.remove(path)
+                    if adv:
+                        violations.append((f'{rec["cid"]}/{ob["name"]}', adv, ''))
+                    else:
+                        undecided.append(f'{rec["cid"]}/{ob["name"]}: {ob["verdict"]} {ob.get("reason", "")}')
+            if proof_level_failures:
+                names = ', '.join(o['name'].split('/', 1)[-1] for o in proof_level_failures[:4])
+                if len(violations) > n_viol_before:
+                    pass        # a postcondition of the same contract is already reported as violated
+                else:
+                    ppath, runs = native_probe(pid, rec['cid'], seed)
+                    if ppath:
+                        violations.append((f'{rec["cid"]}/{proof_level_failures[0]["name"]}', ppath, ''))
+                    else:
+                        undecided.append(f'{rec["cid"]}: proof-level obligation(s) no longer discharged ({names}); the postconditions '
+                                         f'held natively on {runs} sampled / adversarial inputs of the real function: the proof needs '
+                                         f'maintenance, the property is not refuted')
         else:
             kid = rec['variant'].split(':', 1)[1]
             k = next(x for x in known if x['id'] == kid)
@@ -257,6 +402,22 @@ def run_property(pid, tier='quick', seed=0, only=None):
             bounded.append(cr['bounded'])
         solver_s += cr.get('seconds', 0)
 
+    crosscheck = None
+    if thorough:
+        # engine cross-check (tools/crosscheck.py): proved postconditions evaluated natively on sampled inputs of the real code
+        try:
+            cp = subprocess.run([sys.executable, os.path.join(VERIF, 'tools', 'crosscheck.py'), pid, '--samples', '3', '--seed', str(seed)],
+                                capture_output=True, text=True, timeout=3000)
+            line = next((l for l in cp.stdout.splitlines() if l.startswith('crosscheck: contracts=')), '')
+            crosscheck = dict(exit=cp.returncode, summary=line)
+            if cp.returncode == 3:
+                for l in cp.stdout.splitlines():
+                    if l.startswith('DISAGREE'):
+                        crashes.append('engine cross-check: ' + l)
+            elif cp.returncode != 0:
+                undecided.append(f'engine cross-check did not run: {(cp.stdout + cp.stderr)[-300:]}')
+        except subprocess.TimeoutExpired:
+            undecided.append('engine cross-check timed out')
     wall = time.time() - t0
     level = 'proof'
     meta = PROPERTY_META.get(pid, {})
@@ -269,6 +430,8 @@ def run_property(pid, tier='quick', seed=0, only=None):
                abstracted=abstracted[:60], bounded=bounded, undecided=undecided[:40],
                known_findings=known_lines,
                explanation=meta.get('explanation', ''))
+    if crosscheck is not None:
+        cov['engine_crosscheck'] = crosscheck
     ev = dict(property_id=pid, tier=tier, seed=int(seed), level=level, coverage=cov,
               assumptions=sorted(assumptions) + meta.get('assumptions', []), wall_s=round(wall, 2),
               violations=len(violations))
